@@ -185,3 +185,30 @@ Proof. vm_compute. repeat split. Qed.
 Lemma string_validates_then_builds :
   from_utf8_wf SharedString_from_utf8 = true /\ str_deref_wf SharedString_deref = true.
 Proof. vm_compute. repeat split. Qed.
+
+(* deserialization: a SharedString is built from text, or from raw bytes only through the validating
+   from_utf8 of str / String (whose error arm refuses); a SharedBytes takes the bytes as they are *)
+Definition de_text_wf (f : fn_def) : bool :=
+  match fn_body f with
+  | [ECall (EPath ["Ok"]) [ECall (EPath ["SharedString"; "from"]) [EPath ["s"]]]] => true
+  | _ => false
+  end.
+Definition de_validates (validator : list string) (f : fn_def) : bool :=
+  match fn_body f with
+  | [EMatch (ECall (EPath v) [EPath ["s"]])
+       [(PTupleStruct ["Ok"] [PIdent x None], None, ECall (EPath ["Ok"]) [ECall (EPath ["SharedString"; "from"]) [EPath [x']]]);
+        (PTupleStruct ["Err"] [_], None, EBlock [ELetS _ _ None; ECall (EPath ["Err"]) _])]] =>
+      (if list_eq_dec string_dec v validator then true else false) && String.eqb x x'
+  | _ => false
+  end.
+Definition de_bytes_wf (ctor : string) (f : fn_def) : bool :=
+  match fn_body f with
+  | [ECall (EPath ["Ok"]) [ECall (EPath ["SharedBytes"; c]) [EPath ["v"]]]] => String.eqb c ctor
+  | _ => false
+  end.
+Lemma deserialization_validates :
+  de_text_wf SharedString_de_visit_str = true /\ de_text_wf SharedString_de_visit_string = true /\
+  de_validates ["str"; "from_utf8"] SharedString_de_visit_bytes = true /\
+  de_validates ["String"; "from_utf8"] SharedString_de_visit_byte_buf = true /\
+  de_bytes_wf "from_slice" SharedBytes_de_visit_bytes = true /\ de_bytes_wf "from_vec" SharedBytes_de_visit_byte_buf = true.
+Proof. vm_compute. repeat split. Qed.
